@@ -262,7 +262,7 @@ func c10Diff(before, after core.Store) string {
 	}
 	sort.Strings(ks)
 	for _, k := range ks {
-		if k == before.LogName() || k == after.LogName() || k == "D:.ergo" {
+		if k == before.LogName() || k == after.LogName() || strings.HasPrefix(k, "D:") {
 			continue
 		}
 		b, okb := before[k]
